@@ -80,6 +80,18 @@ Theorem C08_only_the_shape_matters :
 Proof. exact step_of_shape_only. Qed.
 Print Assumptions C08_only_the_shape_matters.
 
+(* ... and nothing in front of the sentence is skipped: a line whose first byte is neither a backslash (a TAG block) nor a
+   start delimiter is rejected in every state — so on a parser's first call as on any later one — and leaves the state as
+   it was: a byte order mark, a blank, a line end or the tail of a torn line in front of a good sentence included *)
+Theorem C08_leading_bytes_are_not_skipped :
+  forall c q st b rest d, b <> 92 -> b <> 33 -> b <> 36 -> step c q st (b :: rest) d = (st, Err ENmea).
+Proof. exact leading_byte_rejected. Qed.
+Print Assumptions C08_leading_bytes_are_not_skipped.
+
+Theorem C08_empty_line_is_rejected : forall c q st d, step c q st [] d = (st, Err ENmea).
+Proof. exact empty_line_rejected. Qed.
+Print Assumptions C08_empty_line_is_rejected.
+
 Example C08_hostile_tag_block : tag_block [92; 99; 58; 45; 49; 42; 48; 48; 92].   (* \c:-1*00\ *)
 Proof. exact hostile_block_is_a_tag_block. Qed.
 
